@@ -379,4 +379,32 @@ theorem sighash_model_is_reference_taproot (H : Bytes → Bytes) (F : SigRef.Ful
 example (H : Bytes → Bytes) (F : SigRef.FullTx) : SigHash.Cache.OK H F.tx F.spent {} := SigHash.Cache.OK_empty H F.tx F.spent
 example : ∃ d, SigRef.legacyDigest (fun b => b) ⟨Props.C02.exTx, Props.C02.exSpent, 1⟩ [0x51] 3 = some d := ⟨_, rfl⟩
 
+/-! ## (ix) the words of the spending transaction that evaluation reads are UNSIGNED -/
+
+/-- BIP68/112's version test reads the 32-bit version field as an unsigned number: `CheckSequence` (the model of
+    lib/script/misc.go, and with it the reference) fails for the versions 0 and 1 and for NO other value - any two
+    versions ≥ 2, in particular 2 and every value 2^31 … 2^32-1 of the field (negative if it were read as an int32),
+    give the same answer for every operand, sequence and lock time. -/
+theorem csv_version_is_unsigned (tx : TxCtx) (v n : Nat) (hv : 2 ≤ v) (ht : 2 ≤ tx.version) :
+    checkSequence { tx with version := v } n = checkSequence tx n ∧
+    checkSequence { tx with version := v } n = ScriptSpec.checkSequence tx n ∧
+    (∀ tx0 : TxCtx, tx0.version < 2 → checkSequence tx0 n = false) := by
+  refine ⟨?_, ?_, ?_⟩
+  · unfold checkSequence
+    have h1 : ¬ v < 2 := by omega
+    have h2 : ¬ tx.version < 2 := by omega
+    simp only [h1, h2, if_false]
+  · rw [← checkSequence_eq]
+    unfold checkSequence
+    have h1 : ¬ v < 2 := by omega
+    have h2 : ¬ tx.version < 2 := by omega
+    simp only [h1, h2, if_false]
+  · intro tx0 h0
+    unfold checkSequence
+    simp only [h0, if_true]
+/-- non-vacuity, and the boundary itself: version 0x80000000 with sequence 10 satisfies `10 CSV`, version 1 does not -/
+example : checkSequence { version := 0x80000000, lockTime := 0, sequence := 10, idx := 0, nOuts := 1, sigScript := [], witness := [] } 10 = true := by decide
+example : checkSequence { version := 0xffffffff, lockTime := 0, sequence := 10, idx := 0, nOuts := 1, sigScript := [], witness := [] } 10 = true := by decide
+example : checkSequence { version := 1, lockTime := 0, sequence := 10, idx := 0, nOuts := 1, sigScript := [], witness := [] } 10 = false := by decide
+
 end GocoinV.Props.C01
